@@ -44,9 +44,41 @@ Fixpoint true_nodes_from (i : nat) (C : circuit) : list nat :=
   end.
 Definition true_nodes (C : circuit) : list nat := true_nodes_from 0 C.
 
-(* anomalies/core.rs calculate_core: -n..=n, literal present and its complement absent *)
-Definition calculate_core (C : circuit) (n : nat) : list Z :=
+(* anomalies/core.rs calculate_core BEFORE the repair F22 (kept for the K7 / K4 witnesses):
+   -n..=n, literal present and its complement absent *)
+Definition calculate_core_v0 (C : circuit) (n : nat) : list Z :=
   filter (fun f => has_lit C f && negb (has_lit C (- f)))
+         (zseq (- Z.of_nat n) (2 * n + 1)).
+
+(* anomalies/core.rs live_literals (F22): one sweep from the root down (children have smaller
+   indices).  A live node marks its children with a non-zero count; the literal of a live literal
+   node is collected.  st = (live marks, collected literals - a HashSet in the Rust, used for
+   membership only). *)
+Definition live_step (C : circuit) (cnts : list Z) (st : list bool * list Z) (i : nat)
+  : list bool * list Z :=
+  if nth i (fst st) false then
+    match nth i C FalseN with
+    | And cs | Or cs =>
+      (fold_left (fun lv c => if nth c cnts 0 =? 0 then lv else upd c true lv) cs (fst st), snd st)
+    | Lit l => (fst st, l :: snd st)
+    | _ => st
+    end
+  else st.
+
+(* root count zero (or no node at all): there is no model, every literal of the `literals` map
+   is kept - the answer of the code before F22 *)
+Definition live_literals (C : circuit) (cnts : list Z) : list Z :=
+  let len := length C in
+  if nth (len - 1) cnts 0 =? 0 then lits_of C
+  else snd (fold_left (live_step C cnts) (rev (seq 0 len))
+                      (upd (len - 1) true (map (fun _ => false) C), [])).
+
+(* anomalies/core.rs calculate_core: -n..=n, literal live and its complement not live
+   (Node.count is filled by the flattening before calculate_core runs, in Ddnnf::new and in
+   Ddnnf::rebuild) *)
+Definition calculate_core (C : circuit) (n : nat) : list Z :=
+  let ll := live_literals C (counts C) in
+  filter (fun f => memZ f ll && negb (memZ (- f) ll))
          (zseq (- Z.of_nat n) (2 * n + 1)).
 
 Record ddnnf := {
